@@ -446,7 +446,11 @@ Qed.
 Definition lookalikes : list string :=
   ["relay:admin "; " relay:admin"; "Relay:Admin"; "RELAY:ADMIN"; "relay:Admin"; "admin"; "relay"; "relay:"; "relay:admi";
    "relay:admins"; "relay:admin:"; "relay-admin"; "relay.admin"; "relay:admin,relay:stats"; "relay:admin relay:stats";
-   "relay:stats"; "read"; "write"; "host"; "client"; ""; "*"; "relay:*"].
+   "relay:stats"; "read"; "write"; "host"; "client"; ""; "*"; "relay:*";
+   (* Unicode compatibility look-alikes, as UTF-8 bytes: full-width letters and colon, small colon, modifier r,
+      superscript n, long s, zero-width space, byte-order mark *)
+   "ｒｅｌａｙ：ａｄｍｉｎ"; "relay：admin"; "relay﹕admin"; "ʳelay:admin"; "relay:admiⁿ"; "relay:ａdmin";
+   "relay：stats"; "relay:ſtats"; "relay:ｓtats"; "relay:admin​"; "﻿relay:admin"].
 
 Lemma lookalikes_not_admin : ~ In "relay:admin" lookalikes.
 Proof. apply str_mem_false. vm_compute. reflexivity. Qed.
